@@ -47,7 +47,7 @@ MODES = ('raw-dict', 'raw-FilterConfig', 'normalized')
 
 FIELD_PLACEMENTS = ('string', 'comma', 'comma-space', 'comma-mixed', 'list', 'tuple', 'records')
 EXTRA_PLACEMENTS = ('x-string', 'x-comma', 'x-comma-space', 'x-comma-mixed', 'x-list', 'x-tuple', 'x-dict',
-                    'x-list-of-dicts', 'x-dict-of-list')
+                    'x-list-of-dicts', 'x-dict-of-list', 'x-deep8')      # deep8: eight container levels below the key (dict / list / tuple alternating)
 EXTRA_KEY = 'camera_uris'
 
 TCP_IN, TCP_OUT = 'tcp://localhost:5550', 'tcp://*:5552'
@@ -160,6 +160,8 @@ def placed(case):
         return [{'url': u1}, {'url': u2}], [HOST1, HOST2]
     if p == 'dict-of-list':
         return {'cams': [u1, u2]}, [HOST1, HOST2]
+    if p == 'deep8':
+        return {'site': [{'racks': ({'rows': [{'cams': ([{'url': u1}], {'backup': [u2]})}]},)}]}, [HOST1, HOST2]
 
     raise ValueError(p)
 
